@@ -41,7 +41,7 @@ ASSUMPTIONS = [
 ]
 
 INT_STEPS = [1, 2, 3]
-ODD_STEPS = [-1, 2e-05, 5e-05, 0.5, 2, 10, 1e2]   # incl. negative exponents in the file name
+ODD_STEPS = [-1, 0, 2e-05, 5e-05, 0.5, 2, 10, 1e2]   # incl. step 0 and negative exponents in the file name
 
 
 def bounds(tier):
